@@ -307,7 +307,7 @@ def solve_task(task):
             # cheap attempts with few hypotheses first (sound: fewer facts can only lose proofs)
             for tk, ttext in enumerate(tier_texts):
                 ts = time.time()
-                st, inf = _solve_z3(ttext, max(1000, ms // 10))
+                st, inf = _solve_z3(ttext, max(8000, ms // 2) if tk == opts.get("abs_tier") else max(1000, ms // 10))
                 if st == "unknown" and tk != opts.get("abs_tier"):
                     st, inf = _solve_split(ttext, max(2000, ms // 5))
                 log.append(("z3-tier%d" % tk, st, round(time.time() - ts, 3)))
